@@ -433,6 +433,48 @@ def twin_rate_frames(rng, sd, ac, st, cs):
     return (sd, ac, st1, cs), (sd, ac, st2, cs), "rates_" + fr
 
 
+def twin_callable(rng, sd, ac, st, cs):
+    """chord, twist, sweep and dihedral given as Python functions of the span fraction instead of numbers / tables"""
+    # (a swept wing with dihedral that has a left half, whatever was drawn: the per-side conventions apply to functions as well)
+    ac = copy.deepcopy(ac)
+    for w in ac["wings"].values():
+        if "quarter_chord_locs" not in w and w.get("ll_offset") != "kuchemann":
+            if not w.get("sweep"):
+                w["sweep"] = 15.0
+            if not w.get("dihedral"):
+                w["dihedral"] = 6.0
+            if w.get("side") == "right" and w.get("connect_to", {}).get("ID", 0) == 0:
+                w["side"] = "both"
+            break
+    ac2 = copy.deepcopy(ac)
+    n = 0
+
+    def as_function(v):
+        if isinstance(v, (int, float)):
+            return lambda s_, c_=float(v): np.full(np.shape(s_), c_) if np.ndim(s_) else c_
+        xs, ys = [float(r_[0]) for r_ in v], [float(r_[1]) for r_ in v]
+        if len(set(xs)) != len(xs):
+            return None                     # (a step table has no function of the span fraction)
+        return lambda s_, xs=xs, ys=ys: np.interp(s_, xs, ys)
+    for w in ac2["wings"].values():
+        if "quarter_chord_locs" in w or w.get("ll_offset") == "kuchemann":
+            continue
+        for k in ("sweep", "dihedral", "twist", "chord"):
+            v = w.get(k)
+            if isinstance(v, (int, float)) or (isinstance(v, list) and v and isinstance(v[0], (list, tuple))):
+                f_ = as_function(v)
+                if f_ is not None:
+                    # angles: the functions return degrees?  The documentation asks for radians from a function
+                    if k in ("sweep", "dihedral", "twist"):
+                        w[k] = (lambda g_: (lambda s_: np.radians(g_(s_))))(f_)
+                    else:
+                        w[k] = f_
+                    n += 1
+    if n == 0:
+        return None
+    return (sd, ac, st, cs), (sd, ac2, st, cs), "callable"
+
+
 def twin_int_float(rng, sd, ac, st, cs):
     """the same state written with integers and with floats (JSON files often carry [100, 0, 10]): velocity vector, rates in stability or
     wind axes, position and Euler angles"""
@@ -499,7 +541,7 @@ def twin_chain(rng, sd, ac, st, cs):
     return (sd, one, st, {}), (sd, two, st, {}), "chain"
 
 
-TWINS = [twin_units, twin_annotations, twin_const_array, twin_uvw, twin_euler_quat, twin_rate_frames, twin_qc_points, twin_chain, twin_int_float]
+TWINS = [twin_units, twin_annotations, twin_const_array, twin_uvw, twin_euler_quat, twin_rate_frames, twin_qc_points, twin_chain, twin_int_float, twin_callable]
 
 
 def totals(MX, sd, ac, st, cs):
